@@ -424,7 +424,14 @@ impl Inc {
                         (rx, r)
                     })
                     .await;
-                match self.advance("app", &mut h).await? {
+                let adv = match self.advance("app", &mut h).await {
+                    Ok(a) => a,
+                    Err(e) => {
+                        self.app_task = Some(h);
+                        return Err(e);
+                    }
+                };
+                match adv {
                     Advance::Parked(_) => {
                         self.app_task = Some(h);
                         out.insert("res".into(), json!("pending"));
@@ -438,7 +445,14 @@ impl Inc {
             "AppAckWriteTx" => {
                 let mut h = self.app_task.take().ok_or("no ack call in flight")?;
                 self.gate.release("app");
-                match self.advance("app", &mut h).await? {
+                let adv = match self.advance("app", &mut h).await {
+                    Ok(a) => a,
+                    Err(e) => {
+                        self.app_task = Some(h);
+                        return Err(e);
+                    }
+                };
+                match adv {
                     Advance::Parked(_) => {
                         self.app_task = Some(h);
                         out.insert("res".into(), json!("pending"));
@@ -452,7 +466,14 @@ impl Inc {
             "AppAckCommit" => {
                 let mut h = self.app_task.take().ok_or("no ack call in flight")?;
                 self.gate.release("app");
-                match self.advance("app", &mut h).await? {
+                let adv = match self.advance("app", &mut h).await {
+                    Ok(a) => a,
+                    Err(e) => {
+                        self.app_task = Some(h);
+                        return Err(e);
+                    }
+                };
+                match adv {
                     Advance::Parked(p) => return Err(format!("ack parked again at {p}")),
                     Advance::Finished((rx, r)) => {
                         self.rx = Some(rx);
